@@ -264,6 +264,102 @@ TASKS += [
     LemmaTask("noff-strict[step]", _ax[:5] + [_i >= 0, _i < _k, NOFF(_i) + _nw(_i) <= NOFF(_k)], NOFF(_i) + _nw(_i) <= NOFF(_k + 1), "and before every later start"),
 ]
 
+# ---------------------------------------------------------------------------------------------------------------------
+# the TimeSeries methods the wrappers and hvsr_preprocess use through models: detrend, window, butterworth_filter under contract (scipy's detrend / tukey /
+# butter / sosfiltfilt opaque: A-DETREND, A-TUKEY, A-SOSFILTFILT), plus from_trace and is_similar.  What is proved: which scipy routine receives which
+# arguments, what the samples become, whether the storage is the same (window multiplies in place) or new, and that nothing else of the object changes.
+from pyvc.core import ModV, ARef, Undecided, ArrData, lit
+from pyvc import npmodel as npm
+ARs = z3.ArraySort(I, R)
+NT, DTT = z3.Int("n_samples"), z3.Real("dt_in_seconds")
+SAMP = z3.Const("samples", ARs)
+SC_DETREND = z3.Function("scipy_detrend", ARs, I, I, ARs)               # (samples, n, type code)
+SC_TUKEY = z3.Function("scipy_tukey", I, R, ARs)                       # (n, alpha)
+SC_BUTTER = z3.Function("scipy_butter_sos", I, R, R, I, R, I)          # (order, wn_low, wn_high, btype code, fs) -> sos id
+SC_SOSFILTFILT = z3.Function("scipy_sosfiltfilt", I, ARs, I, ARs)      # (sos id, samples, n)
+_BT = {"lowpass": 1, "highpass": 2, "bandpass": 3}
+_TY = {"linear": 0, "constant": 1}
+NOWN = z3.Real("no_corner")       # placeholder for the unused entry of wn
+
+
+def _ts_inputs(extra):
+    def mk(ex, st):
+        amp = ex.alloc_arr(st, (NT,), SAMP, "real", "param:self.amplitude", tag="amplitude")
+        st.env["self"] = sym_obj(ex, st, "TimeSeries", {"amplitude": amp, "dt_in_seconds": DTT}, owner="param:self")
+        st.env.update(extra)
+        st.env["NT"] = NT
+        return [NT >= 0, DTT > 0]
+    return mk
+
+
+def _m_sc_detrend(ex, st, args, kw, node):
+    d = ex.arr(st, args[0])
+    return ex.alloc_arr(st, d.shape, SC_DETREND(d.data, d.shape[0], z3.IntVal(_TY[kw.get("type", StrV("linear")).s])), "real", "fresh", tag="detrended")
+
+
+def _m_sc_tukey(ex, st, args, kw, node):
+    n = lit(args[0])
+    return ex.alloc_arr(st, (n,), SC_TUKEY(n, real_(kw["alpha"])), "real", "fresh", tag="taper")
+
+
+def _m_sc_butter(ex, st, args, kw, node):
+    order, wn, btype = args
+    if isinstance(wn, LRef):
+        lo, hi = [real_(x) for x in st.heap[wn.sid].items]
+    else:
+        lo, hi = (real_(wn), NOWN) if btype.s == "highpass" else (NOWN, real_(wn))
+    if not (isinstance(kw.get("output"), StrV) and kw["output"].s == "sos"):
+        raise Undecided("butter output other than sos")
+    return SC_BUTTER(lit(order), lo, hi, z3.IntVal(_BT[btype.s]), real_(kw["fs"]))
+
+
+def _m_sc_sosfiltfilt(ex, st, args, kw, node):
+    d = ex.arr(st, args[1])
+    return ex.alloc_arr(st, d.shape, SC_SOSFILTFILT(lit(args[0]), d.data, d.shape[0]), "real", "fresh", tag="filtered")
+
+
+from pyvc.core import LRef
+_TS_ENV = {"detrend": FuncV(_m_sc_detrend, "scipy.signal.detrend"), "tukey": FuncV(_m_sc_tukey, "scipy.signal.windows.tukey"),
+           "butter": FuncV(_m_sc_butter, "scipy.signal.butter"), "sosfiltfilt": FuncV(_m_sc_sosfiltfilt, "scipy.signal.sosfiltfilt"),
+           "warnings": ModV("warnings", {"warn": FuncV(lambda ex, st, a, k, n_: NONE, "warnings.warn")})}
+import contracts.C18 as _C18
+_TS_REG = {"TimeSeries.n_samples": _C18.N_SAMPLES, "TimeSeries.fs": _C18.FS}
+_TS_GH = {"DETREND": lambda i, t: z3.Select(SC_DETREND(SAMP, NT, t), i), "TUKEY": lambda i, w: z3.Select(SC_TUKEY(NT, w), i), "NT": NT,
+          "FILT": lambda i, order, lo, hi, bt: z3.Select(SC_SOSFILTFILT(SC_BUTTER(order, lo, hi, bt, 1 / DTT), SAMP, NT), i), "NOWN": NOWN,
+          "same_storage": FuncV(lambda ex, st, a, k, n_: z3.BoolVal(a[0].sid == ex.entry.heap[ex.entry.env["self"].oid].fields["amplitude"].sid), "same_storage")}
+_Q = "hvsrpy.timeseries.TimeSeries."
+for _ty in ("linear", "constant"):
+    TASKS.append(FunctionTask(Contract(qual=_Q + "detrend", params=["self", "type"], ghost=_TS_GH, make_inputs=_ts_inputs({"type": StrV(_ty)}),
+                                       ensures=["len(self.amplitude) == NT", f"forall(i, 0, NT, self.amplitude[i] == DETREND(i, {_TY[_ty]}))", "not same_storage(self.amplitude)",
+                                                "self.dt_in_seconds == old(self.dt_in_seconds)"], modifies=["param:self"],
+                                       notes="the samples become scipy.signal.detrend(samples, type=type) in a new array; the time step is untouched"),
+                              module_env=_TS_ENV, registry=_TS_REG, label=_Q + f"detrend[{_ty}]", clauses=["detrend replaces the samples by scipy's detrended copy"]))
+WW = z3.Real("width")
+TASKS.append(FunctionTask(Contract(qual=_Q + "window", params=["self", "type", "width"], ghost=_TS_GH, make_inputs=_ts_inputs({"type": StrV("tukey"), "width": WW}),
+                                   ensures=["len(self.amplitude) == NT", "forall(i, 0, NT, self.amplitude[i] == old(self.amplitude)[i] * TUKEY(i, width))",
+                                            "same_storage(self.amplitude)", "self.dt_in_seconds == old(self.dt_in_seconds)"],
+                                   modifies=["param:self", "param:self.amplitude"],
+                                   notes="every sample is multiplied by the Tukey taper of the series' own length and the given width, IN PLACE: the storage is the "
+                                         "caller-visible one (why process() tapers copies)"),
+                          module_env=_TS_ENV, registry=_TS_REG, label=_Q + "window[tukey]", clauses=["window multiplies by the taper in place"]))
+TASKS.append(FunctionTask(Contract(qual=_Q + "window", params=["self", "type", "width"], make_inputs=_ts_inputs({"type": StrV("hann"), "width": WW}),
+                                   raises={"NotImplementedError": "True"}, ensures=[], modifies=[]),
+                          module_env=_TS_ENV, registry=_TS_REG, label=_Q + "window[other]", clauses=["unknown window types are refused"]))
+FLO, FHI, ORD = z3.Real("fc_low"), z3.Real("fc_high"), z3.Int("order")
+for _name, _lo, _hi, _spec in (("lowpass", NONE, FHI, f"FILT(i, order, NOWN, fc_high, {_BT['lowpass']})"), ("highpass", FLO, NONE, f"FILT(i, order, fc_low, NOWN, {_BT['highpass']})"),
+                               ("bandpass", FLO, FHI, f"FILT(i, order, fc_low, fc_high, {_BT['bandpass']})"), ("none", NONE, NONE, None)):
+    if _spec is None:
+        ens = ["same_storage(self.amplitude)", "forall(i, 0, NT, self.amplitude[i] == old(self.amplitude)[i])", "result is None"]
+        mod = []
+    else:
+        ens = ["len(self.amplitude) == NT", f"forall(i, 0, NT, self.amplitude[i] == {_spec})", "not same_storage(self.amplitude)", "self.dt_in_seconds == old(self.dt_in_seconds)"]
+        mod = ["param:self"]
+    TASKS.append(FunctionTask(Contract(qual=_Q + "butterworth_filter", params=["self", "fcs_in_hz", "order"], ghost=dict(_TS_GH, fc_low=FLO, fc_high=FHI),
+                                       make_inputs=_ts_inputs({"fcs_in_hz": Tup((_lo, _hi)), "order": ORD}), ensures=ens, modifies=mod,
+                                       notes="(None, fh) low-pass at fh, (fl, None) high-pass at fl, (fl, fh) band-pass, (None, None) nothing; zero-phase filtering "
+                                             "(sosfiltfilt) of the whole series with the Butterworth design for the series' own sampling rate"),
+                              module_env=_TS_ENV, registry=_TS_REG, label=_Q + f"butterworth_filter[{_name}]", clauses=["zero-phase Butterworth filtering with the corners given"]))
+
 META = dict(
     level="other",
     explanation="proved: TimeSeries.split (interval count under the float model, tiling, shared boundary sample, error case, frame); "
